@@ -495,3 +495,169 @@ var rEncDispatch = &Rule{
 		c.Min("calls of encodeWrapper from the dispatcher", n, 1)
 	},
 }
+
+// ---------------------------------------------------------------------------
+// R-MARK-EQUALS
+
+var rMarkEquals = &Rule{
+	Name: "R-MARK-EQUALS",
+	Doc: "two type marks are equal when both parts are: in errorspb.ErrorTypeMark.Equals every way of answering true has passed the equality test of the two FamilyName fields AND the equality test of the two Extension fields (each comparing the receiver's field with the argument's). " +
+		"A shortcut that accepts on the family name alone when one side's extension is empty makes an error without a domain (or with an empty one) match references of any domain, and makes the comparison asymmetric",
+	Run: func(c *core.Ctx) {
+		p := c.P
+		etm := p.Named("errorspb", "ErrorTypeMark")
+		if etm == nil {
+			c.InternalErr("errorspb.ErrorTypeMark", "anchor type not found")
+			return
+		}
+		fn := p.DeclaredMethod(etm, "Equals")
+		if fn == nil || len(fn.Params) < 2 {
+			c.InternalErr("errorspb.ErrorTypeMark.Equals", "anchor method not found")
+			return
+		}
+		// which field of which parameter a value is
+		fieldOf := func(v ssa.Value) (string, int) {
+			switch x := v.(type) {
+			case *ssa.Field:
+				if prm, ok := x.X.(*ssa.Parameter); ok {
+					if st, isSt := types.Unalias(prm.Type()).Underlying().(*types.Struct); isSt {
+						return st.Field(x.Field).Name(), paramIndex(fn, prm)
+					}
+				}
+			case *ssa.UnOp:
+				if fa, ok := x.X.(*ssa.FieldAddr); ok && x.Op == token.MUL {
+					root := fa.X
+					if al, isAl := root.(*ssa.Alloc); isAl {
+						// a spilled struct parameter
+						for _, r := range *al.Referrers() {
+							if st, isSt := r.(*ssa.Store); isSt && st.Addr == ssa.Value(al) {
+								root = st.Val
+							}
+						}
+					}
+					if prm, isP := root.(*ssa.Parameter); isP {
+						return sx.FieldOf(fa).Name(), paramIndex(fn, prm)
+					}
+				}
+			}
+			return "", -1
+		}
+		cmpOf := func(l lit) string {
+			bin, ok := l.V.(*ssa.BinOp)
+			if !ok || !((bin.Op == token.EQL && !l.Neg) || (bin.Op == token.NEQ && l.Neg)) {
+				return ""
+			}
+			fx, ix := fieldOf(bin.X)
+			fy, iy := fieldOf(bin.Y)
+			if fx != "" && fx == fy && ix >= 0 && iy >= 0 && ix != iy {
+				return fx
+			}
+			return ""
+		}
+		n := 0
+		for _, ret := range sx.Returns(fn) {
+			if len(ret.Results) != 1 {
+				continue
+			}
+			var visit func(v ssa.Value, lits []lit, d int) string
+			visit = func(v ssa.Value, lits []lit, d int) string {
+				if d > 5 {
+					return "undecided"
+				}
+				have := map[string]bool{}
+				for _, l := range lits {
+					if f := cmpOf(l); f != "" {
+						have[f] = true
+					}
+				}
+				switch x := v.(type) {
+				case *ssa.Const:
+					if x.Value != nil && x.Value.String() == "false" {
+						return ""
+					}
+					if have["FamilyName"] && have["Extension"] {
+						return ""
+					}
+					return "true is answered without both field comparisons having succeeded"
+				case *ssa.Phi:
+					for i, e := range x.Edges {
+						if why := visit(e, edgeLits(x.Block().Preds[i], x.Block()), d+1); why != "" {
+							return why
+						}
+					}
+					return ""
+				case *ssa.BinOp:
+					// the last conjunct as a value: it is one of the comparisons, the other one holds on the way here
+					if f := cmpOf(lit{V: x}); f != "" {
+						have[f] = true
+						if have["FamilyName"] && have["Extension"] {
+							return ""
+						}
+					}
+					return "the answer is a comparison that does not complete both field comparisons"
+				}
+				return "the answer is not built from the two field comparisons (" + describeVal(v) + ")"
+			}
+			n++
+			why := visit(ret.Results[0], dominatingLits(ret.Block()), 0)
+			c.Check(why == "", "errorspb.ErrorTypeMark.Equals: when the answer is true", ret.Pos(), "FamilyName and Extension of both marks compared equal",
+				"ErrorTypeMark.Equals: "+why+": marks that differ in their extension (the domain of an error) or family name can compare equal, so errors of different domains match each other in Is / IsAny")
+		}
+		c.Min("returns of ErrorTypeMark.Equals", n, 1)
+	},
+}
+
+// ---------------------------------------------------------------------------
+// R-DETAILS-ORDER
+
+var rDetailsOrder = &Rule{
+	Name: "R-DETAILS-ORDER",
+	Doc: "a layer's own safe details come first: errbase.getDetails (behind GetSafeDetails / GetAllSafeDetails and the safe-detail walks of barriers and secondary errors) probes errbase.SafeDetailer before it falls back to a pkg/errors-style StackTrace(). " +
+		"A layer that has both otherwise reports only its printed stack: the strings it declares PII-free disappear from GetAllSafeDetails and from the details a barrier or secondary-error wrapper relays",
+	Run: func(c *core.Ctx) {
+		fn := c.P.Func("errbase", "getDetails")
+		if fn == nil {
+			c.InternalErr("errbase.getDetails", "anchor function not found")
+			return
+		}
+		var order []string
+		var pos token.Pos
+		for _, f := range regionOf(fn).funcs {
+			for _, b := range f.DomPreorder() {
+				for _, in := range b.Instrs {
+					ta, ok := in.(*ssa.TypeAssert)
+					if !ok {
+						continue
+					}
+					if sx.IsNamed(ta.AssertedType, errbasePath, "SafeDetailer") {
+						order = append(order, "SafeDetailer")
+					} else if it, isI := types.Unalias(ta.AssertedType).Underlying().(*types.Interface); isI {
+						for i := 0; i < it.NumMethods(); i++ {
+							if it.Method(i).Name() == "StackTrace" {
+								order = append(order, "StackTrace")
+							}
+						}
+					}
+					if pos == token.NoPos {
+						pos = ta.Pos()
+					}
+				}
+			}
+		}
+		iS, iT := -1, -1
+		for i, o := range order {
+			if o == "SafeDetailer" && iS < 0 {
+				iS = i
+			}
+			if o == "StackTrace" && iT < 0 {
+				iT = i
+			}
+		}
+		if iS < 0 {
+			c.Fail("errbase.getDetails: probe order", fn.Pos(), "getDetails no longer asks a layer for its SafeDetails()")
+			return
+		}
+		c.Check(iT < 0 || iS < iT, "errbase.getDetails: probe order", pos, "SafeDetailer before the StackTrace() fallback",
+			"getDetails asks a layer for a pkg/errors-style StackTrace() before errbase.SafeDetailer: a layer that has both reports only its printed stack, so the strings it declares safe are missing from GetAllSafeDetails and from what barriers and secondary-error wrappers relay")
+	},
+}
